@@ -1156,15 +1156,20 @@ def run_miri_layer(pid, tier, sd, replay_dir, results, violations, known, others
     picked = {}
     per_rate = {}
     failed = []
+    orders = set()
     for (w, s_, rate), (rc, out) in zip(jobs, outs):
         m = re.search(r"WORKLOAD (\d+) threads=(\d+) first=(\w+)", out)
         if m:
             picked[m.group(3)] = picked.get(m.group(3), 0) + 1
         per_rate[rate] = per_rate.get(rate, 0) + 1
+        mo = re.search(r"^ORDER (.*)$", out, re.M)
+        if mo:
+            orders.add((w, mo.group(1)))
         if rc != 0:
             failed.append((w, s_, rate, out))
     total = len(jobs)
-    results.append(dict(base_seed=base, workloads=NW, interpreter_runs=total, runs_per_preemption_rate=per_rate, first_call_kinds_raced=picked,
+    results.append(dict(base_seed=base, workloads=NW, interpreter_runs=total, runs_per_preemption_rate=per_rate,
+                        distinct_interleavings=dict(measure="distinct (workload, global completion order of the threads' calls) pairs", count=len(orders)), first_call_kinds_raced=picked,
                         failed_runs=len(failed), wall_s=round(time.time() - t0, 1)))
     log("[%s] miri: %d interpreter runs (every one of %d workloads, rates %s): %d failed; first-call kinds raced: %s" % (pid, total, NW, per_rate, len(failed), picked))
     seen_sig = set()
@@ -1787,17 +1792,22 @@ def selftest_determinism():
                     print("NONDETERMINISTIC: %s/%s/%s at %d workers: %d of %d seeds differ, first run index %s" % (sc, mix, profile, threads, len(diff), len(ref), diff[:3]))
             log("[determinism] %s/%s/%s: 4 executions x 2000 seeds compared" % (sc, mix, profile))
     native = miri_native()
-    exp = subprocess.run([native, "expected", "7", "74"], stdout=subprocess.PIPE, text=True).stdout.strip()
-    r1 = miri_run(7, 74, exp, 100, 104, "0.2")
-    r2 = miri_run(7, 74, exp, 100, 104, "0.2")
-    w1 = sorted(l for l in r1[1].splitlines() if l.startswith("WORKLOAD"))
-    w2 = sorted(l for l in r2[1].splitlines() if l.startswith("WORKLOAD"))
-    if w1 != w2:
-        bad += 1
-        print("NONDETERMINISTIC: Miri seeds 100..104 selected different workloads in two executions")
-    if r1[0] != r2[0]:
-        bad += 1
-        print("NONDETERMINISTIC: Miri seeds 100..104 pass/fail differs between two executions")
+    exp = subprocess.run([native, "expected", "7", str(NW)], stdout=subprocess.PIPE, text=True).stdout.strip()
+    from concurrent.futures import ThreadPoolExecutor
+    mjobs = [(w, 100 + w, rate) for w in (0, 7, 21, 26, 40, 58, 81, 95, 100) for rate in ("0.05", "0.4")]
+    with ThreadPoolExecutor(max_workers=NCPU) as ex:
+        r1 = list(ex.map(lambda j: miri_run(7, NW, exp, j[1], j[1] + 1, j[2], j[0]), mjobs))
+        r2 = list(ex.map(lambda j: miri_run(7, NW, exp, j[1], j[1] + 1, j[2], j[0]), mjobs))
+    orders = set()
+    for j, a, b_ in zip(mjobs, r1, r2):
+        o1 = [l for l in a[1].splitlines() if l.startswith("ORDER") or l.startswith("WORKLOAD")]
+        o2 = [l for l in b_[1].splitlines() if l.startswith("ORDER") or l.startswith("WORKLOAD")]
+        total += 1
+        orders.add(tuple(o1))
+        if a[0] != b_[0] or o1 != o2 or len(o1) != 2:
+            bad += 1
+            print("NONDETERMINISTIC: Miri workload %d seed %d rate %s: two executions differ (%s / %s)" % (j[0], j[1], j[2], o1, o2))
+    log("[determinism] Miri: %d (workload, seed, rate) triples executed twice: completion orders identical; %d distinct orders" % (len(mjobs), len(orders)))
     print("determinism self-test: %d digests compared, %d divergences" % (total, bad))
     return 0 if bad == 0 else 2
 
